@@ -983,7 +983,7 @@ func RunCase(e *Env, c *Case, base string) (*Result, error) {
 	if err != nil {
 		return nil, err
 	}
-	const patience = 5 * time.Second
+	const patience = 15 * time.Second // generous: the machine may be heavily loaded
 	for _, bi := range e.Trunk {
 		if _, err := wn.N.Process(bi.Block); err != nil {
 			return nil, fmt.Errorf("trunk: %v", err)
